@@ -22,6 +22,7 @@ def main():
         from smartquery import SqParser  # noqa
     from sqv import core
     from sqv.props import c16
+    c16._BYSTANDER['want'] = os.environ.get('SQV_C16_BYSTANDER') == '1'
     known = [k.signature for k in core.load_known()[0] if k.prop == 'C16']
     state = {'execs': 0, 'nontrivial': 0, 'hist': {}, 'seen': set(), 'findings': 0}
 
